@@ -371,7 +371,7 @@ def translate(repo):
               and ast.unparse({k.arg: k.value for k in ones.keywords}.get("dtype")) == "torch.bool")
     if not ok:
         raise Unrecognised(where, f, "ar_mask")
-    w(f"Definition ar_mask_diagonal : Z := {r.value.keywords[0].value and int_const(r.value.keywords[0].value)}%Z.")
+    w(f"Definition ar_mask_diagonal : Z := ({int_const(r.value.keywords[0].value)})%Z.")
     # data["mask"] as encoding._encode_batch builds it
     rel = "tak/model/encoding.py"
     where = rel + ":_encode_batch"
